@@ -371,7 +371,10 @@ theorem InvG_wakeOne {sl : Key → Nat} (q : Quirks) (hq : q.unregisterAllOnServ
     have hpc : (s.conns w.conn).peerClosed = false := hcalm w.conn (by rw [hb]; simp)
     have hWs : ∀ k', cntW s k' = rest.countP (fun w' => w'.key == k') + (if (w.key == k') = true then 1 else 0) := by
       intro k'; unfold cntW; rw [hw, List.countP_cons]
-    simp only [hI.target_ok hw, hpc, Bool.true_eq_false, Bool.false_eq_true, and_false, if_false]
+    have hps : probeSees q { s with wakeQ := rest } w.conn = false := by
+      show ((s.conns w.conn).peerClosed && _) = false
+      rw [hpc]; rfl
+    simp only [hI.target_ok hw, hps, Bool.true_eq_false, Bool.false_eq_true, and_false, if_false]
     split
     · next hpe =>
       exfalso
@@ -693,6 +696,17 @@ theorem InvF_hangup (s : State) (c : Conn) (hI : InvF s) :
   by_cases hcc : c' = c
   · subst hcc
     exact ⟨by simp [setConn], fun _ => by simp [setConn]⟩
+  · simp [setConn, hcc]
+
+/-- Any update of a connection that leaves `blocked` and `gone` as they are (`kill` of an unblocked client, `hangupDirty`). -/
+theorem InvF_setConn_life (s : State) (c : Conn) (f : ConnSt → ConnSt) (hI : InvF s)
+    (hf1 : (f (s.conns c)).blocked = (s.conns c).blocked) (hf2 : (f (s.conns c)).gone = (s.conns c).gone) :
+    InvF (setConn s c f) := by
+  refine hI.congr_life rfl rfl rfl rfl ?_
+  intro c'
+  by_cases hcc : c' = c
+  · subst hcc
+    exact ⟨by simp [setConn, hf1], fun _ => by simp [setConn, hf2]⟩
   · simp [setConn, hcc]
 
 theorem InvF_reap (s : State) (c : Conn) (hI : InvF s) (hnb : (s.conns c).blocked = none) :
